@@ -5,6 +5,7 @@ import (
 	"go/ast"
 	"go/token"
 	"go/types"
+	"sort"
 	"strings"
 
 	"golang.org/x/tools/go/packages"
@@ -31,6 +32,13 @@ func init() {
 			"so that the next statement cannot be glued onto it; the only bypass is an exported function/class declaration. R09.2 of the design (keyword separation typestate) was evaluated and dropped: the printer's space insertion is data dependent (m.prev bytes), no exact static formulation exists without an allow-list.",
 		Run: runC09,
 	})
+	mutant(&Mutant{Name: "c04-token-equal-folds-case", Property: "C04", File: "css/css.go",
+		Old: "if t.TokenType == t2.TokenType && bytes.Equal(t.Data, t2.Data) && len(t.Args) == len(t2.Args) {", New: "if t.TokenType == t2.TokenType && bytes.EqualFold(t.Data, t2.Data) && len(t.Args) == len(t2.Args) {",
+		Rule: "R04.9", Construct: "Token.Equal"})
+	mutant(&Mutant{Name: "c04-attr-flag-space-only-after-quotes", Property: "C04", File: "css/css.go",
+		Old: "\t\t\t\tif css.IsIdent(s) {\n\t\t\t\t\tc.w.Write(s)\n\t\t\t\t\tcontinue", New: "\t\t\t\tif css.IsIdent(s) {\n\t\t\t\t\tc.w.Write(s)\n\t\t\t\t\tisClass = true\n\t\t\t\t\tcontinue",
+		Old2: "} else if val.TokenType == css.IdentToken && len(val.Data) == 1 && (val.Data[0] == 'i'", New2: "} else if isClass && val.TokenType == css.IdentToken && len(val.Data) == 1 && (val.Data[0] == 'i'",
+		Rule: "R04.10", Construct: "decided by the current token"})
 	mutant(&Mutant{Name: "c04-important-lost-for-complex-values", Property: "C04", File: "css/css.go",
 		Old: "\t\tfor _, component := range components {\n\t\t\tc.w.Write(component.Data)\n\t\t}\n\t\tif important {\n\t\t\tc.w.Write(importantBytes)\n\t\t}\n\t\treturn\n", New: "\t\tfor _, component := range components {\n\t\t\tc.w.Write(component.Data)\n\t\t}\n\t\treturn\n",
 		Rule: "R04.1", Construct: "minifyDeclaration"})
@@ -46,6 +54,12 @@ func init() {
 	mutant(&Mutant{Name: "c04-flex-auto-prefix-test", Property: "C04", File: "css/css.go",
 		Old: "\t\t\tif len(values[0].Data) == 1 && len(values[1].Data) == 1 {\n\t\t\t\tif values[2].Ident == Auto {", New: "\t\t\tif len(values[0].Data) == 1 {\n\t\t\t\tif values[2].Ident == Auto {",
 		Rule: "R04.3", Construct: "values[1].Data[0]=='1'"})
+	mutant(&Mutant{Name: "c09-function-declaration-as-loop-body", Property: "C09", File: "js/js.go",
+		Old: "\tif len(blockStmt.List) == 1 {\n\t\tif _, ok := blockStmt.List[0].(*js.FuncDecl); ok {\n\t\t\thasLexicalVars = true // a function declaration is not a statement, e.g. for(;;)function f(){} is invalid\n\t\t}\n\t}\n", New: "",
+		Rule: "R09.11", Construct: "braces kept for a function declaration"})
+	mutant(&Mutant{Name: "c09-data-uri-keeps-source-quote", Property: "C09", File: "css/css.go",
+		Old: "\t\t\t\t\tif delim == '\\'' && bytes.IndexByte(uri, '\\'') != -1 && bytes.IndexByte(uri, '\"') == -1 {\n\t\t\t\t\t\tdelim = '\"' // DataURI decodes %27 but always encodes double quotes\n\t\t\t\t\t}\n", New: "",
+		Rule: "R09.9", Construct: "quoted write"})
 	mutant(&Mutant{Name: "c09-bigint-through-number", Property: "C09", File: "js/util.go",
 		Old: "\tb, suffix = removeUnderscoresAndSuffix(b)\n\tif suffix {\n\t\treturn append(b, 'n')\n\t}\n\treturn minify.Number(b, prec)", New: "\tb, suffix = removeUnderscoresAndSuffix(b)\n\tb = minify.Number(b, prec)\n\tif suffix {\n\t\treturn append(b, 'n')\n\t}\n\treturn b",
 		Rule: "R09.3", Construct: "decimalNumber"})
@@ -59,7 +73,8 @@ func init() {
 		Old: "\t\t\tvalue := parse.TrimWhitespace(c.p.Values()[0].Data)\n", New: "\t\t\tvalue := parse.TrimWhitespace(parse.ReplaceMultipleWhitespace(c.p.Values()[0].Data))\n",
 		Rule: "R04.4", Construct: "confined to comment text"})
 	mutant(&Mutant{Name: "c09-url-quoting-decided-before-datauri", Property: "C09", File: "css/css.go",
-		Old: "\t\t\t\tif 4 < len(uri) && parse.EqualFold(uri[:5], dataSchemeBytes) {\n\t\t\t\t\turi = minify.DataURI(c.m, uri)\n\t\t\t\t}\n\t\t\t\tif css.IsURLUnquoted(uri) {", New: "\t\t\t\tunquoted := css.IsURLUnquoted(uri)\n\t\t\t\tif 4 < len(uri) && parse.EqualFold(uri[:5], dataSchemeBytes) {\n\t\t\t\t\turi = minify.DataURI(c.m, uri)\n\t\t\t\t}\n\t\t\t\tif unquoted {",
+		Old: "\t\t\t\tif 4 < len(uri) && parse.EqualFold(uri[:5], dataSchemeBytes) {\n\t\t\t\t\turi = minify.DataURI(c.m, uri)\n", New: "\t\t\t\tunquoted := css.IsURLUnquoted(uri)\n\t\t\t\tif 4 < len(uri) && parse.EqualFold(uri[:5], dataSchemeBytes) {\n\t\t\t\t\turi = minify.DataURI(c.m, uri)\n",
+		Old2: "\t\t\t\tif css.IsURLUnquoted(uri) {\n\t\t\t\t\tvalues[i].Data = append(append(urlBytes, uri...), ')')", New2: "\t\t\t\tif unquoted {\n\t\t\t\t\tvalues[i].Data = append(append(urlBytes, uri...), ')')",
 		Rule: "R09.8", Construct: "re-examined after"})
 	mutant(&Mutant{Name: "c09-dot-after-number-shortcut", Property: "C09", File: "js/js.go",
 		Old: "\t\tif js.OpMember <= prec || isOptionalGroup(expr.X) {\n\t\t\tm.minifyExpr(expr.X, js.OpMember)", New: "\t\tif lit, ok := expr.X.(*js.LiteralExpr); ok && lit.TokenType == js.DecimalToken {\n\t\t\tm.write(lit.Data)\n\t\t\tm.write(dotBytes)\n\t\t\tm.write(expr.Y.Data)\n\t\t\tbreak\n\t\t}\n\t\tif js.OpMember <= prec || isOptionalGroup(expr.X) {\n\t\t\tm.minifyExpr(expr.X, js.OpMember)",
@@ -163,8 +178,12 @@ func runC04(c *Ctx) {
 		})
 	}
 	c.R.Floor(r7, "ParseInt calls", n7, 1)
+	c.r049(pk)
+	c.r0410(pk)
 	// positions remembered while rewriting a value list (background layers) stay valid: same rule as R10.5, css only
-	c.alsoUnder(map[string]string{"R10.5": "R04.8"}, func(construct string) bool { return strings.HasPrefix(construct, "css.") || strings.HasPrefix(construct, "floor/") }, func() { c.r105() })
+	c.alsoUnder(map[string]string{"R10.5": "R04.8"}, func(construct string) bool {
+		return strings.HasPrefix(construct, "css.") || strings.HasPrefix(construct, "floor/")
+	}, func() { c.r105() })
 }
 
 func runC04own(c *Ctx) {
@@ -374,9 +393,10 @@ func runC09(c *Ctx) {
 		// a reserved word handed out as a name, or `in` without parentheses in a for-init, is output the parser rejects
 		c.alsoUnder(map[string]string{"R02.3": "R09.5"}, nil, func() { c.r023(pk) })
 		c.alsoUnder(map[string]string{"R01.16": "R09.6"}, nil, func() { c.r0116(pk) })
+		c.r0911(pk)
 	}
 	// a JSON number without its leading zero (`.5`) is not JSON
-	c.alsoUnder(map[string]string{"R07.3": "R09.7"}, nil, func() { runC07own(c) })
+	c.alsoUnder(map[string]string{"R07.3": "R09.7", "R07.12": "R09.10"}, nil, func() { runC07own(c) })
 	c.r098()
 }
 
@@ -628,4 +648,310 @@ func (c *Ctx) r098() {
 		}
 	}
 	c.R.Exists(rule, "css.cssMinifier.minifyTokens/url quoting sites", "-", fmt.Sprintf("%d (rewrite, unquoted write) pairs", n))
+	// R09.9: the quoted form
+	const r9 = "R09.9"
+	c.R.Rule(r9, "when the url is written in quotes (`url(` delim uri delim `)`), uri must not contain the delimiter. The delimiter is taken from the source, where that holds; minify.DataURI then decodes the payload and re-encodes it with a table that leaves `'` alone (`%27` → `'`). So from every assignment of a minify.DataURI result to uri, each path to the quoted write either knows the delimiter not to be the apostrophe (DataURI percent-encodes `\"`) or passes a test that looks for a quote in uri (bytes.IndexByte / bytes.Contains… over uri) — without it `url('data:text/x,it%27s')` becomes `url('data:text/x,it's')`, a bad-url token")
+	var qwrites []*flow.Node
+	for _, y := range g.Nodes {
+		as, ok := y.Stmt.(*ast.AssignStmt)
+		if !ok || y.Kind != flow.KStmt || len(as.Rhs) != 1 {
+			continue
+		}
+		sx := nospace(str(as.Rhs[0]))
+		if strings.Contains(sx, "urlBytes") && strings.Contains(sx, uriName+"...") && strings.Contains(sx, "delim") {
+			qwrites = append(qwrites, y)
+		}
+	}
+	looksForQuote := func(q *flow.Node) bool {
+		// the delimiter is known not to be the apostrophe (DataURI percent-encodes the double quote)
+		if (q.Kind == flow.KFalse || q.Kind == flow.KTrue) && q.Of != nil && q.Of.Kind == flow.KCond {
+			if be, ok := ast.Unparen(q.Of.Expr).(*ast.BinaryExpr); ok && (be.Op == token.EQL || be.Op == token.NEQ) {
+				for _, pr := range [][2]ast.Expr{{be.X, be.Y}, {be.Y, be.X}} {
+					if strings.Contains(str(pr[0]), "delim") {
+						if k, isK := intConst(info, pr[1]); isK {
+							notApos := (k == '\'' && ((be.Op == token.EQL) == (q.Kind == flow.KFalse))) || (k == '"' && ((be.Op == token.EQL) == (q.Kind == flow.KTrue)))
+							if notApos {
+								return true
+							}
+						}
+					}
+				}
+			}
+		}
+		if q.Kind != flow.KCond {
+			return false
+		}
+		hit := false
+		ast.Inspect(q.Expr, func(x ast.Node) bool {
+			if call, ok := x.(*ast.CallExpr); ok && len(call.Args) >= 1 && str(call.Args[0]) == uriName {
+				if nm := calleeName(info, call); strings.HasPrefix(nm, "bytes.Index") || strings.HasPrefix(nm, "bytes.Contains") {
+					hit = true
+				}
+			}
+			return true
+		})
+		return hit
+	}
+	n9 := 0
+	for _, a := range g.Nodes {
+		rhs, ok := assignsTo(a, func(l ast.Expr) bool { return str(l) == uriName })
+		if !ok || isCall(info, ast.Unparen(rhs), load.Mod+".DataURI") == nil {
+			continue
+		}
+		for _, w := range qwrites {
+			n9++
+			p := g.Path(flow.Search{From: []*flow.Node{a}, Goal: func(q *flow.Node) bool { return q == w }, Avoid: looksForQuote})
+			c.R.Check(p == nil, r9, fmt.Sprintf("css.cssMinifier.minifyTokens/quoted write#%d after %s", n9, str0(a.Stmt)), c.pos(w.Stmt), "a test for a quote in the decoded uri lies on every path", "the data URI is decoded and re-encoded (an apostrophe stays literal) and then written between the source's quotes without looking for that quote in it: "+pathStr(c, g, p))
+		}
+	}
+	c.R.Floor(r9, "(DataURI result, quoted write) pairs", n9, 1)
+}
+
+// R04.9: two components are the same only when they are the same bytes.
+func (c *Ctx) r049(pk *packages.Package) {
+	const rule = "R04.9"
+	c.R.Rule(rule, "css.Token.Equal is the licence to drop a repeated component of a box shorthand (`margin:1px 1px` → `margin:1px`). It may call two tokens equal only when their bytes are equal: every path to `return true` passes the true outcome of bytes.Equal over the two Data fields — custom property names, strings and identifiers in functions are case-sensitive (`margin:var(--gap) var(--Gap)` must keep both)")
+	fd := c.fn(rule, pk, "Token.Equal")
+	if fd == nil {
+		return
+	}
+	info := pk.TypesInfo
+	g := c.graph(pk, fd)
+	exact := func(y *flow.Node) bool {
+		if y.Kind != flow.KTrue || y.Of == nil || y.Of.Kind != flow.KCond {
+			return false
+		}
+		call, ok := ast.Unparen(y.Of.Expr).(*ast.CallExpr)
+		if !ok || calleeName(info, call) != "bytes.Equal" || len(call.Args) != 2 {
+			return false
+		}
+		return strings.HasSuffix(str(call.Args[0]), ".Data") && strings.HasSuffix(str(call.Args[1]), ".Data") && str(call.Args[0]) != str(call.Args[1])
+	}
+	n := 0
+	for _, y := range g.Nodes {
+		rs := retStmt(y)
+		if rs == nil || len(rs.Results) != 1 {
+			continue
+		}
+		if tv, ok := info.Types[rs.Results[0]]; !ok || tv.Value == nil || tv.Value.String() != "true" {
+			// a computed result: must itself be the exact comparison
+			if call, ok := ast.Unparen(rs.Results[0]).(*ast.CallExpr); ok && calleeName(info, call) == "bytes.Equal" {
+				continue
+			}
+			if tv.Value != nil && tv.Value.String() == "false" {
+				continue
+			}
+		}
+		n++
+		y := y
+		p := g.Path(flow.Search{From: []*flow.Node{g.Entry}, Goal: func(q *flow.Node) bool { return q == y }, Avoid: exact})
+		c.R.Check(p == nil, rule, fmt.Sprintf("css.Token.Equal/return %s#%d behind bytes.Equal", str(rs.Results[0]), n), c.pos(rs), "only after bytes.Equal(t.Data, t2.Data) held", "two tokens are called equal on a path that never compares their bytes exactly: "+pathStr(c, g, p))
+	}
+	c.R.Floor(rule, "positive returns of Token.Equal", n, 1)
+}
+
+// R04.10: the separator before an attribute selector flag.
+func (c *Ctx) r0410(pk *packages.Package) {
+	const rule = "R04.10"
+	c.R.Rule(rule, "inside an attribute selector the parser drops white space, so `[type=radio i]` arrives as `radio`,`i`: cssMinifier.minifySelectors must put a space back before a flag or the flag becomes part of the value. (a) The write of the separator is decided by the current token alone — the dominating conditions mention only the range variable, the in-attribute state and constants; whether the value was quoted in the source is irrelevant (`[type=radio i]` has no quotes to begin with). (b) The byte test on the flag holds for i, I, s and S (Selectors Level 4 §6.3: attribute modifiers `i` and `s`, ASCII case-insensitive) and for nothing else")
+	fd := c.fn(rule, pk, "cssMinifier.minifySelectors")
+	if fd == nil {
+		return
+	}
+	info := pk.TypesInfo
+	g := c.graph(pk, fd)
+	// the range variable and the in-attribute flag (the bool assigned true under a LeftBracketToken test)
+	allowed := map[types.Object]bool{}
+	for _, y := range g.Nodes {
+		if y.Kind == flow.KRange {
+			if rs, ok := y.Stmt.(*ast.RangeStmt); ok && rs.Value != nil {
+				if id, ok := rs.Value.(*ast.Ident); ok {
+					allowed[info.ObjectOf(id)] = true
+				}
+			}
+		}
+		if as, ok := y.Stmt.(*ast.AssignStmt); ok && y.Kind == flow.KStmt && len(as.Lhs) == 1 && len(as.Rhs) == 1 {
+			if tv, ok := info.Types[as.Rhs[0]]; ok && tv.Value != nil && tv.Value.String() == "true" {
+				for _, f := range g.DomFacts(y) {
+					if f.Value && f.Test.Kind == flow.KCond && strings.Contains(str(f.Test.Expr), "LeftBracketToken") {
+						if id, ok := as.Lhs[0].(*ast.Ident); ok {
+							allowed[info.ObjectOf(id)] = true
+						}
+					}
+				}
+			}
+		}
+	}
+	n := 0
+	for _, y := range g.Nodes {
+		a := y.Ast()
+		if a == nil || y.Kind != flow.KStmt || !strings.Contains(str0(a), "Write(spaceBytes)") {
+			continue
+		}
+		n++
+		var foreign []string
+		var pred []ast.Expr
+		v := ""
+		for _, f := range g.DomFacts(y) {
+			if f.Test.Kind != flow.KCond {
+				continue
+			}
+			ast.Inspect(f.Test.Expr, func(q ast.Node) bool {
+				if id, ok := q.(*ast.Ident); ok {
+					if o, isVar := info.Uses[id].(*types.Var); isVar && !o.IsField() && o.Parent() != o.Pkg().Scope() && !allowed[o] {
+						foreign = append(foreign, id.Name)
+					}
+				}
+				if ix, ok := q.(*ast.IndexExpr); ok && strings.HasSuffix(str(ix.X), ".Data") && str(ix.Index) == "0" {
+					v = str(ix)
+				}
+				return true
+			})
+			if f.Value && strings.Contains(str(f.Test.Expr), ".Data[0]") {
+				pred = append(pred, f.Test.Expr)
+			}
+		}
+		c.R.Check(len(foreign) == 0, rule, fmt.Sprintf("css.cssMinifier.minifySelectors/separator#%d decided by the current token", n), c.pos(a), "conditions over the token and the in-attribute state only", "the space before an attribute selector flag also depends on "+strings.Join(foreign, ", ")+": a flag after a value that needs no rewriting (`[type=radio i]`) is glued to the value (`[type=radioi]`)")
+		// the flag letters: the dominating true outcomes over Data[0] are alternatives of one `||` chain split into leaves,
+		// so evaluate the enclosing if condition instead
+		var cond ast.Expr
+		for x := c.P.Parent(a); x != nil; x = c.P.Parent(x) {
+			if ifs, ok := x.(*ast.IfStmt); ok && strings.Contains(str(ifs.Cond), ".Data[0]") {
+				cond = ifs.Cond
+				break
+			}
+		}
+		_ = pred
+		if cond != nil {
+			ast.Inspect(cond, func(q ast.Node) bool {
+				if ix, ok := q.(*ast.IndexExpr); ok && strings.HasSuffix(str(ix.X), ".Data") && str(ix.Index) == "0" {
+					v = str(ix)
+				}
+				return true
+			})
+		}
+		if cond == nil || v == "" {
+			c.R.Unres(rule, fmt.Sprintf("css.cssMinifier.minifySelectors/separator#%d flag letters", n), c.pos(a), "no byte test over the token's first byte encloses the separator write")
+			continue
+		}
+		var conj []ast.Expr
+		var flat func(e ast.Expr)
+		flat = func(e ast.Expr) {
+			e = ast.Unparen(e)
+			if b, ok := e.(*ast.BinaryExpr); ok && b.Op == token.LAND {
+				flat(b.X)
+				flat(b.Y)
+				return
+			}
+			conj = append(conj, e)
+		}
+		flat(cond)
+		var got []string
+		undecided := false
+		for b := int64(0); b < 256; b++ {
+			res := true
+			used := false
+			for _, e := range conj {
+				if !strings.Contains(str(e), v) {
+					continue
+				}
+				used = true
+				r, ok := evalBytePred(info, e, v, b)
+				if !ok {
+					undecided = true
+				}
+				res = res && r
+			}
+			if used && res {
+				got = append(got, string(rune(b)))
+			}
+		}
+		sort.Strings(got)
+		want := "I,S,i,s"
+		if undecided {
+			c.R.Unres(rule, fmt.Sprintf("css.cssMinifier.minifySelectors/separator#%d flag letters", n), c.pos(cond), "the flag test is not a pure byte predicate")
+			continue
+		}
+		c.R.Check(strings.Join(got, ",") == want, rule, fmt.Sprintf("css.cssMinifier.minifySelectors/separator#%d flag letters", n), c.pos(cond), "i I s S", "the separator is written before the one-letter identifiers {"+strings.Join(got, ",")+"}, the attribute modifiers are {"+want+"}: a missing one is glued to the value (`[b=\"c\" s]` → `[b=cs]`)")
+	}
+	c.R.Floor(rule, "separator writes in minifySelectors", n, 1)
+}
+
+// R09.11: braces are dropped only around a Statement.
+func (c *Ctx) r0911(pk *packages.Package) {
+	const rule = "R09.11"
+	c.R.Rule(rule, "the body of for / while / do / if / with / a label is a Statement; let, const, class and function declarations are not statements. jsMinifier.minifyBlockAsStmt prints the single item of a block without braces (m.minifyStmt(….List[0])) only on the false outcome of a flag that is set (a) in a range over the block scope's Declared list whenever an entry is a js.LexicalDecl — which covers let, const and class — and (b) when the item is a *js.FuncDecl (function declarations live in the function scope and are invisible to (a)). `for(;;){class A{}}` → `for(;;)class A{}` and `while(a){function f(){}}` → `for(;a;)function f(){}` are SyntaxErrors")
+	fd := c.fn(rule, pk, "jsMinifier.minifyBlockAsStmt")
+	if fd == nil {
+		return
+	}
+	info := pk.TypesInfo
+	g := c.graph(pk, fd)
+	var bare *flow.Node
+	for _, y := range g.Nodes {
+		a := y.Ast()
+		if a == nil || y.Kind != flow.KStmt {
+			continue
+		}
+		for _, call := range findCalls(info, a, false, load.Mod+"/js.(jsMinifier).minifyStmt") {
+			if strings.HasSuffix(nospace(str(call.Args[0])), ".List[0]") {
+				bare = y
+			}
+		}
+	}
+	if bare == nil {
+		c.R.Unres(rule, "js.jsMinifier.minifyBlockAsStmt/bare statement", c.pos(fd), "the call m.minifyStmt(….List[0]) was not found")
+		return
+	}
+	// flags whose false outcome dominates the bare print
+	flags := map[types.Object]bool{}
+	for _, f := range g.DomFacts(bare) {
+		if f.Value || f.Test.Kind != flow.KCond {
+			continue
+		}
+		if id, ok := ast.Unparen(f.Test.Expr).(*ast.Ident); ok {
+			if o := info.Uses[id]; o != nil {
+				flags[o] = true
+			}
+		}
+	}
+	lexical, funcDecl := false, false
+	for _, y := range g.Nodes {
+		as, ok := y.Stmt.(*ast.AssignStmt)
+		if !ok || y.Kind != flow.KStmt || len(as.Lhs) != 1 || len(as.Rhs) != 1 {
+			continue
+		}
+		id, ok := as.Lhs[0].(*ast.Ident)
+		if !ok || !flags[info.ObjectOf(id)] {
+			continue
+		}
+		if tv, ok := info.Types[as.Rhs[0]]; !ok || tv.Value == nil || tv.Value.String() != "true" {
+			continue
+		}
+		inDeclaredRange := false
+		for _, f := range g.DomFacts(y) {
+			if f.Test.Kind == flow.KRange && f.Value {
+				if rs, ok := f.Test.Stmt.(*ast.RangeStmt); ok && strings.Contains(nospace(str(rs.X)), ".Scope.Declared") {
+					inDeclaredRange = true
+				}
+			}
+		}
+		for _, f := range g.DomFacts(y) {
+			if !f.Value || f.Test.Kind != flow.KCond {
+				continue
+			}
+			s := nospace(str(f.Test.Expr))
+			if inDeclaredRange && strings.HasSuffix(s, ".Decl==js.LexicalDecl") {
+				lexical = true
+			}
+			// ok of `_, ok := X.List[0].(*js.FuncDecl)`
+			if okid, isId := ast.Unparen(f.Test.Expr).(*ast.Ident); isId {
+				if def, isTA := c.singleDef(pk, okid).(*ast.TypeAssertExpr); isTA && def.Type != nil && namedTypeName(info.TypeOf(def.Type)) == pjs+".FuncDecl" && strings.HasSuffix(nospace(str(def.X)), ".List[0]") {
+					funcDecl = true
+				}
+			}
+		}
+	}
+	c.R.Check(len(flags) > 0 && lexical, rule, "js.jsMinifier.minifyBlockAsStmt/braces kept for let, const and class", c.pos(bare.Ast()), "flag set for every LexicalDecl of the block scope", "the single item of a block is printed without braces although the block scope was not searched for lexical declarations: a class (or let/const) declaration becomes the body of a loop or if — a SyntaxError")
+	c.R.Check(len(flags) > 0 && funcDecl, rule, "js.jsMinifier.minifyBlockAsStmt/braces kept for a function declaration", c.pos(bare.Ast()), "flag set when the item is a *js.FuncDecl", "the single item of a block is printed without braces even when it is a function declaration: `while(a){function f(){}}` becomes `for(;a;)function f(){}`, a SyntaxError")
 }
